@@ -700,7 +700,7 @@ fn gen_desc(r: &mut Rng, max_s: usize, allow_isolated: bool) -> WDesc {
 /// boundaries: vertex ids and matrix dimensions above 64 / 128 / 256 (the brute-force
 /// membership cross-check does not apply at this size; the linear-system oracle does).
 fn gen_desc_large(r: &mut Rng) -> WDesc {
-    let ns = *r.pick(&[30usize, 50, 66, 90, 130]) + r.below(8);
+    let ns = if r.chance(0.5) { *r.pick(&[30usize, 50, 66, 90, 130]) + r.below(8) } else { 20 + r.below(120) };
     let colour_mode = r.below(4);
     let spiders: Vec<(bool, bool)> = (0..ns)
         .map(|i| {
